@@ -63,6 +63,18 @@ func genCase(maxOps int) func(t *rapid.T) Case {
 				live++
 				continue
 			}
+			if rapid.IntRange(0, 11).Draw(t, "groupadd") == 5 {
+				// the statement is handed to a group (a File, or the group of a BlockFunc callback) and tokens are
+				// chained onto what Group.Add returns
+				c.Ops = append(c.Ops, Op{Kind: "groupadd", Target: rapid.IntRange(0, live-1).Draw(t, "target"), N: rapid.IntRange(0, 3).Draw(t, "how")})
+				live++
+				continue
+			}
+			if rapid.IntRange(0, 11).Draw(t, "spread") == 5 {
+				// one slice of items (a nil among them) handed to a variadic construct on two statements
+				c.Ops = append(c.Ops, Op{Kind: "spread", Target: rapid.IntRange(0, live-1).Draw(t, "target"), Arg: rapid.IntRange(0, live-1).Draw(t, "arg"), Via: rapid.SampledFrom([]string{"call", "index", "add", "block", "list"}).Draw(t, "spreadvia"), N: rapid.IntRange(0, 7).Draw(t, "nilat")})
+				continue
+			}
 			if live > 1 && rapid.IntRange(0, 7).Draw(t, "addstmt") == 0 {
 				c.Ops = append(c.Ops, Op{Kind: "addstmt", Target: rapid.IntRange(0, live-1).Draw(t, "target"), Arg: rapid.IntRange(0, live-1).Draw(t, "arg")})
 				continue
@@ -462,6 +474,63 @@ func check(c Case) error {
 				endsInCase[list[i].s] = false
 				list[i].own = append(list[i].own, "+", fmt.Sprintf("\x00%d", j))
 			}
+		case "groupadd":
+			// g.Add(x) appends a statement holding x to the group and returns that statement: what is chained
+			// onto the result is no business of x
+			var w *jen.Statement
+			if op.N%2 == 0 {
+				hf := jen.NewFile("h")
+				w = hf.Add(list[i].s)
+			} else {
+				jen.BlockFunc(func(g *jen.Group) { w = g.Add(list[i].s) })
+			}
+			if w == nil {
+				return fmt.Errorf("step %d: Group.Add returned nil", step)
+			}
+			own := []string{fmt.Sprintf("\x00%d", i)}
+			list = append(list, &st{s: w, parent: -1})
+			k := len(list) - 1
+			for n := 0; n <= op.N/2; n++ {
+				own = append(own, apply(w, "dot", 0)...)
+			}
+			list[k].own = own
+			pf.Add(jen.Id("ZZSEP"))
+			pf.Add(w)
+		case "spread":
+			// the caller's slice: three items and a nil somewhere, room to grow
+			j := op.Arg % len(list)
+			a, b, d := next(), next(), next()
+			items := make([]jen.Code, 0, 8)
+			items = append(items, jen.Id(a), jen.Id(b), jen.Id(d))
+			at := op.N % 4
+			items = append(items[:at], append([]jen.Code{nil}, items[at:]...)...)
+			var toks []string
+			for _, tgt := range []int{i, j} {
+				s := list[tgt].s
+				inCase := endsInCase[s]
+				switch op.Via {
+				case "call":
+					s.Call(items...)
+					toks = []string{"(", a, ",", b, ",", d, ")"}
+				case "index":
+					s.Index(items...)
+					toks = []string{"[", a, ":", b, ":", d, "]"}
+				case "list":
+					s.List(items...)
+					toks = []string{a, ",", b, ",", d}
+				case "block":
+					s.Block(items...)
+					toks = []string{"{", a, b, d, "}"}
+					if inCase {
+						toks = []string{a, b, d}
+					}
+				default:
+					s.Add(items...)
+					toks = []string{a, b, d}
+				}
+				endsInCase[s] = false
+				list[tgt].own = append(list[tgt].own, toks...)
+			}
 		case "append":
 			list[i].own = append(list[i].own, apply(list[i].s, op.Via, op.N)...)
 		}
@@ -482,6 +551,11 @@ func classify(r *hx.Run, c Case) {
 	lastSide := map[int]int{}
 	for _, op := range c.Ops {
 		i := op.Target % len(lens)
+		if op.Kind == "groupadd" {
+			infos = append(infos, info{-1, 0, 0})
+			lens = append(lens, 1)
+			continue
+		}
 		if op.Kind == "clone" || op.Kind == "doclone" || op.Kind == "clonechain" {
 			infos = append(infos, info{i, infos[i].depth + 1, lens[i]})
 			lens = append(lens, lens[i])
@@ -536,6 +610,18 @@ func classify(r *hx.Run, c Case) {
 			break
 		}
 	}
+	for _, op := range c.Ops {
+		if op.Kind == "groupadd" {
+			r.Class("statement_added_to_group_and_result_chained")
+			break
+		}
+	}
+	for _, op := range c.Ops {
+		if op.Kind == "spread" {
+			r.Class("one_item_slice_given_to_two_statements")
+			break
+		}
+	}
 	r.Class(fmt.Sprintf("clone_depth_%d", min(maxDepth, 4)))
 	switch {
 	case interleave == 0:
@@ -554,7 +640,7 @@ func classify(r *hx.Run, c Case) {
 func TestC20(t *testing.T) {
 	r := hx.Start(t, "C20")
 	defer r.Finish(t)
-	r.Rule("rapid-generated histories of append/clone operations (appends via Id, Op, Lit, Dot, Call, Index, Qual, Tag, Case+Block, Default+Block, Case / Default alone and a Block appended later, Add with 0..9 items, Add of another statement of the history; chains of 20..130 clones of clones; clones also taken of the callback parameter inside Do, with appends before and after in the callback; every statement is rendered on its own through a fresh File and, as a line of one File that holds all statements and is rendered after every step); non-trivial = the history has a clone taken when its original had >= 3 items, followed by appends to both the original and that clone; distinct by the full history")
+	r.Rule("rapid-generated histories of append/clone operations (appends via Id, Op, Lit, Dot, Call, Index, Qual, Tag, Case+Block, Default+Block, Case / Default alone and a Block appended later, Add with 0..9 items, Add of another statement of the history; Group.Add of a statement with tokens chained onto the result; one caller slice holding a nil handed to Call / Index / List / Block / Add on two statements; chains of 20..130 clones of clones; clones also taken of the callback parameter inside Do, with appends before and after in the callback; every statement is rendered on its own through a fresh File and, as a line of one File that holds all statements and is rendered after every step); non-trivial = the history has a clone taken when its original had >= 3 items, followed by appends to both the original and that clone; distinct by the full history")
 	r.Assume("go/scanner token stream of a NoFormat File render is taken as 'the rendering' of a statement")
 	maxOps := 60
 	if r.Thorough() {
